@@ -132,11 +132,11 @@ Theorem walk_denied_iff (s : fsys) (sv : sview) (slm : slmode) (cs : list str) :
   Forall good_comp cs ->
   let K := klookup s sv false (follow_of slm) (abs_path cs) in
   let r := search_node s v (abs_path cs) slm in
-  K <> WErr EFUEL -> K <> WErr ELOOP -> sr_err r <> EFuel ->
+  K <> WErr EFUEL -> sr_err r <> EFuel ->
   (sr_err r = EPermDenied <-> K = WErr EACCES).
 Proof.
-  intros v h Hos Hwf Hlc Hrd Hg K r Hk1 Hk2 Hnf.
-  exact (walk_rel_denied _ _ _ _ _ _ (sym_bridge_lookup s sv slm cs Hos Hwf Hlc Hrd Hg Hk1 Hk2 Hnf) Hnf).
+  intros v h Hos Hwf Hlc Hrd Hg K r Hk1 Hnf.
+  exact (walk_rel_denied _ _ _ _ _ _ (sym_bridge_lookup s sv slm cs Hos Hwf Hlc Hrd Hg Hk1 Hnf) Hnf).
 Qed.
 
 (* on a link-free path: WHERE the walk is refused.  [first_unsearchable h u d cs]: looking [cs] up from the
